@@ -128,6 +128,7 @@ def gen_cases(ctx, deep=False):
 # ------------------------------------------------------------------------------------------------ implementation runs (cached)
 
 _cache = {}
+_variant = ['unfixed']
 
 def case_key(c):
     return json.dumps(c, sort_keys=True)
@@ -140,6 +141,7 @@ def run_real(cases):
     todo = [c for c in cases if case_key(c) not in _cache]
     if todo:
         out = vlib.run_impl('c21_driver.py', {'cases': todo}, timeout=1500)
+        _variant[0] = out.get('variant', 'unfixed')
         for c, r in zip(todo, out['results']):
             _cache[case_key(c)] = r
         if out.get('error') or out.get('stuck'):
@@ -171,7 +173,7 @@ def coq_case(c, r):
         return 'outcome_eqb (outcome VOL %s) (%s, %s)' % (clist(r['model'], cev), vlib.cbool(r['failed']), tev)
     obs = '[' + '; '.join(cnats(e[2]) for e in r['events']) + ']'
     if not r['events']: obs = '(@nil (list nat))'
-    return 'coutcome_eqb (coutcome %s %s) (%s, %s)' % (vlib.cbool(c['m2m']), clist(r['model'], cev), vlib.cbool(r['failed']), obs)
+    return 'coutcome_eqb (%s %s %s) (%s, %s)' % ('coutcome_fixed' if _variant[0] == 'fixed' else 'coutcome', vlib.cbool(c['m2m']), clist(r['model'], cev), vlib.cbool(r['failed']), obs)
 
 HEADER = ('From Coq Require Import ZArith List Bool.\nImport ListNotations.\nRequire Import PonyV.Model.C21Reload.\n\nOpen Scope nat_scope.\n'
           'Definition VOL : list bool := %s.\n' % VOL)
@@ -205,11 +207,12 @@ def nontrivial_case(c, r):
 def correspondence(ctx):
     cases = gen_cases(ctx)
     disagreements, samples = [], []
-    dist = {'scalar': 0, 'one_to_many': 0, 'many_to_many': 0, 'ended_in_UnrepeatableReadError': 0, 'writer_actions': 0, 'observations': 0}
+    dist = {'db_reverse_remove_variant': None, 'scalar': 0, 'one_to_many': 0, 'many_to_many': 0, 'ended_in_UnrepeatableReadError': 0, 'writer_actions': 0, 'observations': 0}
     try:
         results = run_real(cases)
     except DriverProblem as e:
         return Corr(cases=len(_cache), disagreements=[{'what': 'real sessions did not finish (deadlock or driver error)', 'input': e.case, 'impl': str(e.what)[:1500]}])
+    dist['db_reverse_remove_variant'] = _variant[0]
     exprs, meta, nontriv = [], [], set()
     for c, r in zip(cases, results):
         dist['scalar' if c['kind'] == 'scalar' else 'many_to_many' if c['m2m'] else 'one_to_many'] += 1
